@@ -145,6 +145,14 @@ func (e *Encoder) callStatic(fr *frame, callee *ssa.Function, args []*SVal, bind
 	if ct := e.w.Contracts[callee]; ct != nil && ct.Mode != "inline" && !ct.isEmpty() && callee != e.top && (e.specPure == 0 || callee.Blocks == nil) {
 		return e.applyContract(fr, ct, args, ci, resT)
 	}
+	if nat, ok := ghostSSA[callee.Name()]; ok && nat && callee.Pkg != nil && strings.HasPrefix(callee.Pkg.Pkg.Path(), modPath) && e.w.isContractFileFunc(callee) {
+		// ghost functions of the prelude called from a spec function's body
+		env := &Env{e: e, fr: fr, ct: e.contract, st: e.cur, old: e.entry}
+		if env.ct == nil {
+			env.ct = &Contract{FuncName: shortFn(e.top)}
+		}
+		return nativeSpec[callee.Name()](env, nil, args)
+	}
 	if m, ok := nativeModels[name]; ok {
 		e.trusted[name] = true
 		return m(e, fr, args, ci, resT)
@@ -302,6 +310,36 @@ func (e *Encoder) applyContract(fr *frame, ct *Contract, args []*SVal, ci ssa.Ca
 	pre := e.cur
 	env := e.contractEnv(nil, ct, args, pre, pre)
 	cname := shortFn(callee)
+	// implicit preconditions of every contract: pointer and interface parameters are non-nil
+	// (unless "option nilable:<param>"), and "option dyn:<param>=<type>" fixes a dynamic type
+	if e.pure == 0 {
+		for i, p := range callee.Params {
+			if i >= len(args) || args[i] == nil {
+				continue
+			}
+			a := args[i]
+			if !ct.Options["nilable:"+p.Name()] {
+				var nz *Term
+				switch a.K {
+				case KPtr:
+					nz = c.Not(c.Eq(a.T, c.NilRef()))
+				case KIface:
+					nz = c.Not(c.Eq(a.Tag, c.Int(0)))
+				}
+				if nz != nil && !nz.IsTrue() {
+					e.oblige("requires", cname+":nonnil."+p.Name(), "precondition of "+cname+": parameter "+p.Name()+" is not nil", nz, ci.Pos())
+					e.assume(nz)
+				}
+			}
+			if T := ct.dynOption(e.w, p.Name()); T != nil && a.K == KIface {
+				ok := c.Eq(a.Tag, c.Int(int64(e.w.typeTag(T))))
+				if !ok.IsTrue() {
+					e.oblige("requires", cname+":dyn."+p.Name(), "precondition of "+cname+": parameter "+p.Name()+" has dynamic type "+typeKey(T), ok, ci.Pos())
+					e.assume(ok)
+				}
+			}
+		}
+	}
 	for i, cl := range ct.Requires {
 		t := env.trClause(cl)
 		tag := cl.Tag
@@ -1008,22 +1046,15 @@ func init() {
 			st := e.hashState(h)
 			mem := e.get(e.cur, "mem:bv8", Arr(RefS, Arr(BV64, BV8)))
 			arr := c.Select(mem, p.Base)
-			var ns *Term
-			if p.Len.IsLit() && p.Len.V <= 64 {
-				ns = st
-				for k := uint64(0); k < p.Len.V; k++ {
-					ns = c.App("hAbsorb1", IntS, ns, c.Select(arr, c.BVBin("bvadd", p.Off, c.BVLit(k, 64))))
-				}
-			} else {
-				ns = c.App("hAbsorbN", IntS, st, arr, p.Off, p.Len)
-			}
+			ns := e.hashAbsorb(st, arr, p.Off, p.Len)
 			e.setHashState(fr, h, ns, ci)
 			tt := resT.(*types.Tuple)
 			return &SVal{K: KTuple, Typ: resT, Fields: []*SVal{{K: KScalar, Typ: tt.At(0).Type(), T: p.Len}, e.zero(tt.At(1).Type())}}
 		},
 		"(hash.Hash).Reset": func(e *Encoder, fr *frame, args []*SVal, ci ssa.CallInstruction, resT types.Type) *SVal {
 			h := args[0]
-			e.setHashState(fr, h, e.c.App("hInit", IntS, h.T), ci)
+			obj, _ := e.hashObjOf(h, e.cur)
+			e.setHashState(fr, h, e.c.App("hInit", IntS, obj), ci)
 			return &SVal{K: KTuple, Typ: resT}
 		},
 		"(hash.Hash).Size": func(e *Encoder, fr *frame, args []*SVal, ci ssa.CallInstruction, resT types.Type) *SVal {
@@ -1039,7 +1070,7 @@ func init() {
 			h, b := args[0], args[1]
 			st := e.hashState(h)
 			size := e.hashSize(h)
-			dig := c.App("hDigest", Arr(BV64, BV8), h.T, st)
+			dig := c.App("hDigest", Arr(BV64, BV8), st)
 			ref := e.newAlloc()
 			mem := e.get(e.cur, "mem:bv8", Arr(RefS, Arr(BV64, BV8)))
 			var content *Term
@@ -1098,6 +1129,33 @@ func init() {
 		},
 		"(gopacket.DecodeFeedback).SetTruncated": func(e *Encoder, fr *frame, args []*SVal, ci ssa.CallInstruction, resT types.Type) *SVal {
 			return &SVal{K: KTuple, Typ: resT}
+		},
+		"crypto/hmac.New": func(e *Encoder, fr *frame, args []*SVal, ci ssa.CallInstruction, resT types.Type) *SVal {
+			// a new hash object whose initial absorb state is determined by the hash constructor and the key bytes
+			c := e.c
+			e.trusted["crypto/hmac.New(h, key): a new hash.Hash whose digests are a function of h, the bytes of key and the bytes written (HMAC itself is not modelled); sizes 20/32/16 for sha1/sha256/md5"] = true
+			hgen, key := args[0], args[1]
+			r := e.freshVal("hmac", resT)
+			r.T = e.newAlloc()
+			e.assumeFact(c.Not(c.Eq(r.Tag, c.Int(0))))
+			for _, W := range e.hashWrappers() {
+				e.assumeFact(c.Not(c.Eq(r.Tag, c.Int(int64(e.w.typeTag(W))))))
+			}
+			mem := e.get(e.cur, "mem:bv8", Arr(RefS, Arr(BV64, BV8)))
+			tag := hgen.Tag
+			if hgen.Fn != nil {
+				tag = e.fnTag(hgen.Fn)
+			}
+			c.contentUF("hKeyed", 1)
+			init := c.App("hKeyed", IntS, tag, c.Select(mem, key.Base), key.Off, key.Len)
+			e.assumeFact(c.Eq(c.App("hInit", IntS, r.T), init))
+			sz := c.App("hSize", BV64, r.T)
+			e.ufAxiomSeen[sz] = true
+			szv := e.hashLenOfTag(tag)
+			e.assumeFact(c.And(c.Eq(sz, szv), c.BVCmp("bvule", c.BVLit(1, 64), sz), c.BVCmp("bvule", sz, c.BVLit(64, 64))))
+			arr := e.get(e.cur, "ghost:hash#st", Arr(RefS, IntS))
+			e.set(e.cur, "ghost:hash#st", c.Store(arr, r.T, init))
+			return r
 		},
 		"crypto/hmac.Equal": func(e *Encoder, fr *frame, args []*SVal, ci ssa.CallInstruction, resT types.Type) *SVal {
 			c := e.c
@@ -1165,6 +1223,98 @@ func init() {
 			hi := c.Resize(args[3].T, 64, true)
 			return env.mkBool(c.And(c.Eq(s.Base, t.Base), c.Eq(s.Off, c.BVBin("bvadd", t.Off, lo)), c.Eq(s.Len, c.BVBin("bvsub", hi, lo)),
 				c.BVCmp("bvsle", c.BVLit(0, 64), lo), c.BVCmp("bvsle", lo, hi), c.BVCmp("bvsle", hi, t.Cap)))
+		},
+		// ---- hash ghost (see the comment above hashState) ----
+		"hState": func(env *Env, n *ast.CallExpr, args []*SVal) *SVal {
+			e := env.e
+			obj, _ := e.hashObjOf(args[0], env.state())
+			arr := e.get(env.state(), "ghost:hash#st", Arr(RefS, IntS))
+			return &SVal{K: KScalar, Typ: types.Typ[types.Int], T: e.c.Select(arr, obj)}
+		},
+		"hInit": func(env *Env, n *ast.CallExpr, args []*SVal) *SVal {
+			e := env.e
+			obj, _ := e.hashObjOf(args[0], env.state())
+			return &SVal{K: KScalar, Typ: types.Typ[types.Int], T: e.c.App("hInit", IntS, obj)}
+		},
+		"hSizeOf": func(env *Env, n *ast.CallExpr, args []*SVal) *SVal {
+			e := env.e
+			obj, trunc := e.hashObjOf(args[0], env.state())
+			if trunc != nil {
+				return &SVal{K: KScalar, Typ: types.Typ[types.Int], T: trunc}
+			}
+			return &SVal{K: KScalar, Typ: types.Typ[types.Int], T: e.hashSizeObj(obj)}
+		},
+		"hAbsorb": func(env *Env, n *ast.CallExpr, args []*SVal) *SVal {
+			e := env.e
+			mem := e.get(env.state(), "mem:bv8", Arr(RefS, Arr(BV64, BV8)))
+			return &SVal{K: KScalar, Typ: types.Typ[types.Int], T: e.hashAbsorb(args[0].T, e.c.Select(mem, args[1].Base), args[1].Off, args[1].Len)}
+		},
+		"hAbsorbStr": func(env *Env, n *ast.CallExpr, args []*SVal) *SVal {
+			e := env.e
+			mem := e.get(env.state(), "mem:str", Arr(RefS, Arr(BV64, BV8)))
+			return &SVal{K: KScalar, Typ: types.Typ[types.Int], T: e.hashAbsorb(args[0].T, e.c.Select(mem, args[1].Base), args[1].Off, args[1].Len)}
+		},
+		"hAbsorbByte": func(env *Env, n *ast.CallExpr, args []*SVal) *SVal {
+			e := env.e
+			return &SVal{K: KScalar, Typ: types.Typ[types.Int], T: e.c.App("hAbsorb1", IntS, args[0].T, e.c.Resize(args[1].T, 8, false))}
+		},
+		"hIsDigest": func(env *Env, n *ast.CallExpr, args []*SVal) *SVal {
+			// the bytes of b are the leading bytes of the digest of absorb state st
+			e := env.e
+			c := e.c
+			b := args[0]
+			mem := e.get(env.state(), "mem:bv8", Arr(RefS, Arr(BV64, BV8)))
+			dig := c.App("hDigest", Arr(BV64, BV8), args[1].T)
+			k := c.Bound("k", BV64)
+			sel := c.Select(c.Select(mem, b.Base), c.BVBin("bvadd", b.Off, k))
+			return env.mkBool(c.ForallPat([]*Term{k}, c.Implies(c.BVCmp("bvult", k, b.Len), c.Eq(sel, c.Select(dig, k))), sel))
+		},
+		"hmacKeyed": func(env *Env, n *ast.CallExpr, args []*SVal) *SVal {
+			// initial absorb state of an HMAC over the named hash constructor, keyed with the bytes of key
+			e := env.e
+			fn := env.constFunc(n, args, 0)
+			key := args[1]
+			mem := e.get(env.state(), "mem:bv8", Arr(RefS, Arr(BV64, BV8)))
+			return &SVal{K: KScalar, Typ: types.Typ[types.Int], T: e.c.App("hKeyed", IntS, e.fnTag(fn), e.c.Select(mem, key.Base), key.Off, key.Len)}
+		},
+		"isPlainHash": func(env *Env, n *ast.CallExpr, args []*SVal) *SVal {
+			// the hash.Hash is not one of the module's wrapper types
+			e := env.e
+			c := e.c
+			h := args[0]
+			var parts []*Term
+			for _, W := range e.hashWrappers() {
+				parts = append(parts, c.Not(c.Eq(h.Tag, c.Int(int64(e.w.typeTag(W))))))
+			}
+			return env.mkBool(c.And(parts...))
+		},
+		"hmacKeyedBy": func(env *Env, n *ast.CallExpr, args []*SVal) *SVal {
+			// as hmacKeyed, the hash constructor given as a function value
+			e := env.e
+			fv, key := args[0], args[1]
+			tag := fv.Tag
+			if fv.Fn != nil {
+				tag = e.fnTag(fv.Fn)
+			}
+			mem := e.get(env.state(), "mem:bv8", Arr(RefS, Arr(BV64, BV8)))
+			e.c.contentUF("hKeyed", 1)
+			return &SVal{K: KScalar, Typ: types.Typ[types.Int], T: e.c.App("hKeyed", IntS, tag, e.c.Select(mem, key.Base), key.Off, key.Len)}
+		},
+		"hashLenBy": func(env *Env, n *ast.CallExpr, args []*SVal) *SVal {
+			e := env.e
+			fv := args[0]
+			tag := fv.Tag
+			if fv.Fn != nil {
+				tag = e.fnTag(fv.Fn)
+			}
+			return &SVal{K: KScalar, Typ: types.Typ[types.Int], T: e.hashLenOfTag(tag)}
+		},
+		"hmacKeyedDigest": func(env *Env, n *ast.CallExpr, args []*SVal) *SVal {
+			// as hmacKeyed, the key being the first n bytes of the digest of absorb state st
+			e := env.e
+			fn := env.constFunc(n, args, 0)
+			dig := e.c.App("hDigest", Arr(BV64, BV8), args[1].T)
+			return &SVal{K: KScalar, Typ: types.Typ[types.Int], T: e.c.App("hKeyed", IntS, e.fnTag(fn), dig, e.c.BVLit(0, 64), e.c.Resize(args[2].T, 64, true))}
 		},
 		"holdsFunc": func(env *Env, n *ast.CallExpr, args []*SVal) *SVal {
 			// holdsFunc(x, "pkg.Name"): interface x wraps (a named function type holding) exactly that function
@@ -1566,22 +1716,183 @@ func (e *Encoder) cryptBlocks(fr *frame, args []*SVal, ci ssa.CallInstruction, r
 // and hSize(obj) how many. All are uninterpreted: equal inputs give equal
 // outputs and nothing else is assumed.
 
+// ghost functions of the prelude that spec function bodies may call (they need no syntax)
+var ghostSSA = map[string]bool{"hState": true, "hInit": true, "hSizeOf": true, "hAbsorb": true, "hAbsorbStr": true, "hAbsorbByte": true, "hIsDigest": true, "hmacKeyed": true, "hmacKeyedDigest": true}
+
+// constFunc: the function named by the constant string argument i of a ghost call.
+func (env *Env) constFunc(n *ast.CallExpr, args []*SVal, i int) *ssa.Function {
+	name := ""
+	if n != nil {
+		if cv, ok := env.info.Types[n.Args[i]]; ok && cv.Value != nil {
+			name = constant.StringVal(cv.Value)
+		}
+	} else if args[i] != nil && args[i].Str != nil {
+		name = *args[i].Str
+	}
+	for f := range env.e.w.AllFuncs {
+		if f.String() == name {
+			return f
+		}
+	}
+	panic(contractError{fmt.Errorf("contract for %s: ghost call names an unknown function %q", env.ct.FuncName, name)})
+}
+
+// hashLenOfTag: digest length of the hash built by the constructor with this function tag.
+func (e *Encoder) hashLenOfTag(tag *Term) *Term {
+	c := e.c
+	szv := c.App("hashLen", BV64, tag)
+	var fs []*ssa.Function
+	for f := range e.w.AllFuncs {
+		fs = append(fs, f)
+	}
+	sort.Slice(fs, func(i, j int) bool { return fs[i].String() < fs[j].String() })
+	for _, f := range fs {
+		switch f.String() {
+		case "crypto/sha1.New":
+			szv = c.Ite(c.Eq(tag, e.fnTag(f)), c.BVLit(20, 64), szv)
+		case "crypto/sha256.New":
+			szv = c.Ite(c.Eq(tag, e.fnTag(f)), c.BVLit(32, 64), szv)
+		case "crypto/md5.New":
+			szv = c.Ite(c.Eq(tag, e.fnTag(f)), c.BVLit(16, 64), szv)
+		}
+	}
+	return szv
+}
+
+// hashAbsorb: the absorb state after writing len bytes of arr from off.
+func (e *Encoder) hashAbsorb(st, arr, off, n *Term) *Term {
+	c := e.c
+	if n.IsLit() && n.V <= 64 {
+		ns := st
+		for k := uint64(0); k < n.V; k++ {
+			ns = c.App("hAbsorb1", IntS, ns, c.Select(arr, c.BVBin("bvadd", off, c.BVLit(k, 64))))
+		}
+		return ns
+	}
+	c.contentUF("hAbsorbN", 1)
+	return c.App("hAbsorbN", IntS, st, arr, off, n)
+}
+
+// hashObjOf: the hash object whose ghost state a hash.Hash value denotes. A
+// module type that embeds a hash.Hash (truncatedHash) shares the state of the
+// hash it wraps; its truncation length is returned too (nil if none).
+func (e *Encoder) hashObjOf(h *SVal, st *State) (*Term, *Term) {
+	return e.hashObjOfDepth(h, st, 0)
+}
+
+// hashWrappers: types of package bmc that embed a hash.Hash (value and pointer forms).
+func (e *Encoder) hashWrappers() []types.Type {
+	var wrappers []types.Type
+	if p := e.w.Pkgs[modPath]; p != nil {
+		sc := p.Types.Scope()
+		for _, n := range sc.Names() {
+			tn, ok := sc.Lookup(n).(*types.TypeName)
+			if !ok || tn.IsAlias() {
+				continue
+			}
+			if sT, ok := tn.Type().Underlying().(*types.Struct); ok {
+				for i := 0; i < sT.NumFields(); i++ {
+					if sT.Field(i).Embedded() && sT.Field(i).Type().String() == "hash.Hash" {
+						wrappers = append(wrappers, tn.Type(), types.NewPointer(tn.Type()))
+					}
+				}
+			}
+		}
+	}
+	return wrappers
+}
+
+func (e *Encoder) hashObjOfDepth(h *SVal, st *State, depth int) (*Term, *Term) {
+	c := e.c
+	if h.K != KIface || depth >= 1 {
+		// stated assumption: a wrapper (truncatedHash) never wraps another wrapper
+		return h.T, nil
+	}
+	wrappers := e.hashWrappers()
+	obj := h.T
+	var trunc *Term
+	if len(wrappers) > 0 {
+		e.trusted["a hash wrapper of the module (truncatedHash) never wraps another wrapper, and its length does not exceed the size of the hash it wraps"] = true
+	}
+	for _, W := range wrappers {
+		if h.Dyn != nil && !types.Identical(h.Dyn, W) {
+			continue
+		}
+		T := W
+		isPtr := false
+		if pt, ok := T.Underlying().(*types.Pointer); ok {
+			T = pt.Elem()
+			isPtr = true
+		}
+		sT := T.Underlying().(*types.Struct)
+		var sv *SVal
+		switch {
+		case isPtr:
+			sv = e.load(st, &Addr{Typ: T, Ref: h.T})
+		case h.Dyn != nil && h.Inner != nil:
+			sv = h.Inner
+		default:
+			sv = e.load(st, e.boxAddr(h.T, T))
+		}
+		if sv == nil || sv.K != KStruct {
+			continue
+		}
+		var innerObj, length *Term
+		for i := 0; i < sT.NumFields(); i++ {
+			f := sT.Field(i)
+			if f.Embedded() && f.Type().String() == "hash.Hash" {
+				innerObj, _ = e.hashObjOfDepth(sv.Fields[i], st, depth+1)
+			}
+			if f.Name() == "length" {
+				length = sv.Fields[i].T
+			}
+		}
+		if innerObj == nil {
+			continue
+		}
+		if h.Dyn != nil {
+			return innerObj, length
+		}
+		is := c.Eq(h.Tag, c.Int(int64(e.w.typeTag(W))))
+		obj = c.Ite(is, innerObj, obj)
+		if length != nil {
+			if trunc == nil {
+				trunc = e.hashSizeObj(h.T)
+			}
+			trunc = c.Ite(is, length, trunc)
+		}
+	}
+	return obj, trunc
+}
+
 func (e *Encoder) hashState(h *SVal) *Term {
+	obj, _ := e.hashObjOf(h, e.cur)
 	arr := e.get(e.cur, "ghost:hash#st", Arr(RefS, IntS))
-	return e.c.Select(arr, h.T)
+	return e.c.Select(arr, obj)
 }
 
 func (e *Encoder) setHashState(fr *frame, h *SVal, ns *Term, ci ssa.CallInstruction) {
+	obj, _ := e.hashObjOf(h, e.cur)
 	arr := e.get(e.cur, "ghost:hash#st", Arr(RefS, IntS))
 	if e.pure == 0 {
-		e.frameCheckLoc(fr, assignLoc{prefix: "ghost:hash#st", idx: h.T, typ: types.Typ[types.Int]}, ci.Pos(), "hash state update")
+		e.frameCheckLoc(fr, assignLoc{prefix: "ghost:hash#st", idx: obj, typ: types.Typ[types.Int]}, ci.Pos(), "hash state update")
 	}
-	e.set(e.cur, "ghost:hash#st", e.c.Store(arr, h.T, ns))
+	e.set(e.cur, "ghost:hash#st", e.c.Store(arr, obj, ns))
 }
 
+// hashSize: the number of bytes Sum appends: the truncation length of a
+// wrapper, else hSize of the object (1..64).
 func (e *Encoder) hashSize(h *SVal) *Term {
+	obj, trunc := e.hashObjOf(h, e.cur)
+	if trunc != nil {
+		return trunc
+	}
+	return e.hashSizeObj(obj)
+}
+
+func (e *Encoder) hashSizeObj(obj *Term) *Term {
 	c := e.c
-	t := c.App("hSize", BV64, h.T)
+	t := c.App("hSize", BV64, obj)
 	if !e.ufAxiomSeen[t] {
 		e.ufAxiomSeen[t] = true
 		e.assumeFact(c.And(c.BVCmp("bvule", c.BVLit(1, 64), t), c.BVCmp("bvule", t, c.BVLit(64, 64))))
@@ -1761,85 +2072,194 @@ func (e *Encoder) pureGetter(key string, recv *SVal, resT types.Type) *SVal {
 	return build(resT, "")
 }
 
-// restoreReceiver: an unmodelled callee can only modify memory reachable from
-// its arguments. The receiver of the function under verification is not
-// reachable from a pointer to one of its fields, so its other fields keep
-// their values (stated assumption: the receiver is not aliased elsewhere).
+// restoreReceiver / restoreFrame: an unmodelled callee (or one whose contract has
+// no assigns clause) can only modify memory reachable from its arguments.
+// Stated assumptions: (1) the pointees of the verified function's pointer
+// parameters are separate from each other and from whatever else its other
+// arguments reach (no hidden aliasing between parameters); (2) a callee does
+// not keep a pointer to an argument's pointee after it returns. Under these,
+// the objects this function can name - pointees of its pointer parameters and
+// the objects it allocated itself - keep the values of every field that is
+// not reachable from the arguments of the call: reachable means passed
+// directly, passed as an interior pointer (then only that part), or pointed
+// to by a field of an object that is passed whole.
+type trackedObj struct {
+	ref *Term
+	typ types.Type // type of the object stored at ref
+}
+
 func (e *Encoder) restoreReceiver(fr *frame, pre *State, args []*SVal) {
-	top := e.topFrame
-	if top == nil || top.fn.Signature.Recv() == nil || len(top.fn.Params) == 0 {
+	e.restoreFrame(fr, pre, args)
+}
+
+func (e *Encoder) argRoots(a *SVal, out *[]*Term) {
+	if a == nil {
 		return
 	}
-	recv := top.vals[top.fn.Params[0]]
-	if recv == nil || recv.K != KPtr {
-		return
-	}
-	pt, ok := recv.Typ.Underlying().(*types.Pointer)
-	if !ok {
-		return
-	}
-	st, ok := pt.Elem().Underlying().(*types.Struct)
-	if !ok {
-		return
-	}
-	// the receiver itself must not be an argument
-	for _, a := range args {
-		if a != nil && (a.K == KPtr || a.K == KIface) && a.T == recv.T {
-			return
+	switch a.K {
+	case KPtr, KMap, KOpaque:
+		t := a.T
+		if a.Addr != nil {
+			t = a.Addr.Ref
+		}
+		if t != nil {
+			*out = append(*out, t)
+		}
+	case KIface:
+		if a.T != nil {
+			*out = append(*out, a.T)
+		}
+		if a.Inner != nil {
+			e.argRoots(a.Inner, out)
+		}
+	case KSlice, KString:
+		if a.Base != nil {
+			*out = append(*out, a.Base)
+		}
+	case KFunc:
+		if a.T != nil {
+			*out = append(*out, a.T)
+		}
+		for _, b := range a.Bind {
+			e.argRoots(b, out)
+		}
+	case KStruct, KTuple, KArray:
+		for _, f := range a.Fields {
+			e.argRoots(f, out)
 		}
 	}
-	e.trusted["an unmodelled callee modifies only memory reachable from its arguments; fields of the receiver whose address is not passed keep their values"] = true
-	passed := func(ref *Term) bool {
-		for _, a := range args {
-			if a == nil {
-				continue
-			}
-			var t *Term
-			switch a.K {
-			case KPtr:
-				t = a.T
-				if a.Addr != nil {
-					t = a.Addr.Ref
-				}
-			case KIface:
-				t = a.T
-			case KSlice:
-				t = a.Base
-			}
-			if t != nil && (refDescends(t, ref) || refDescends(ref, t)) {
+}
+
+func (e *Encoder) restoreFrame(fr *frame, pre *State, args []*SVal) {
+	top := e.topFrame
+	if top == nil || e.initMode {
+		return
+	}
+	var objs []trackedObj
+	for _, p := range top.fn.Params {
+		v := top.vals[p]
+		if v == nil || v.K != KPtr {
+			continue
+		}
+		if pt, ok := v.Typ.Underlying().(*types.Pointer); ok {
+			objs = append(objs, trackedObj{v.T, pt.Elem()})
+		}
+	}
+	objs = append(objs, e.tracked...)
+	if len(objs) == 0 {
+		return
+	}
+	var roots []*Term
+	for _, a := range args {
+		e.argRoots(a, &roots)
+	}
+	covered := func(ref *Term) bool { // ref lies inside something passed, or something passed lies inside ref
+		for _, t := range roots {
+			if refDescends(t, ref) || refDescends(ref, t) {
 				return true
 			}
 		}
 		return false
 	}
-	var walk func(ref *Term, t types.Type, depth int)
-	walk = func(ref *Term, t types.Type, depth int) {
+	whole := func(ref *Term) bool { // the object at ref is passed as a whole
+		for _, t := range roots {
+			if refDescends(ref, t) {
+				return true
+			}
+		}
+		return false
+	}
+	// pointer fields of objects passed whole extend the reachable set
+	var ptrFields func(ref *Term, t types.Type, depth int)
+	ptrFields = func(ref *Term, t types.Type, depth int) {
 		s, ok := t.Underlying().(*types.Struct)
 		if !ok || depth > 4 {
 			return
 		}
 		for i := 0; i < s.NumFields(); i++ {
 			a := e.fieldAddr(ref, t, i)
-			if passed(a.Ref) {
-				continue
-			}
-			if _, isStruct := a.Typ.Underlying().(*types.Struct); isStruct {
-				walk(a.Ref, a.Typ, depth+1)
-				continue
-			}
-			if isAggregate(a.Typ) {
-				continue
-			}
-			for _, cp := range leafComps(a.Typ) {
-				cl := a.Prefix + cp.suffix
-				old := e.get(pre, cl, Arr(RefS, cp.sort))
-				cur := e.get(e.cur, cl, Arr(RefS, cp.sort))
-				e.set(e.cur, cl, e.c.Store(cur, a.Idx, e.c.Select(old, a.Idx)))
+			switch kindOf(a.Typ) {
+			case KStruct:
+				ptrFields(a.Ref, a.Typ, depth+1)
+			case KPtr, KIface, KSlice, KMap, KFunc, KOpaque:
+				v := e.load(pre, a)
+				e.argRoots(v, &roots)
 			}
 		}
 	}
-	_ = st
-	walk(recv.T, pt.Elem(), 0)
+	seenWhole := map[*Term]bool{}
+	for round := 0; round < 4; round++ {
+		changed := false
+		for _, o := range objs {
+			if !seenWhole[o.ref] && whole(o.ref) {
+				seenWhole[o.ref] = true
+				changed = true
+				ptrFields(o.ref, o.typ, 0)
+			}
+		}
+		if !changed {
+			break
+		}
+	}
+	e.trusted["an unmodelled callee (or one without an assigns clause) modifies only memory reachable from its arguments; the pointees of the verified function's pointer parameters and the objects it allocated are reachable only through the arguments that name them (parameter separation), and callees do not retain pointers to them after returning"] = true
+	restoreLeaf := func(a *Addr) {
+		for _, cp := range leafComps(a.Typ) {
+			cl := a.Prefix + cp.suffix
+			old := e.get(pre, cl, Arr(RefS, cp.sort))
+			cur := e.get(e.cur, cl, Arr(RefS, cp.sort))
+			e.set(e.cur, cl, e.c.Store(cur, a.Idx, e.c.Select(old, a.Idx)))
+		}
+	}
+	var walk func(ref *Term, t types.Type, depth int)
+	walk = func(ref *Term, t types.Type, depth int) {
+		if depth > 4 {
+			return
+		}
+		switch u := t.Underlying().(type) {
+		case *types.Struct:
+			for i := 0; i < u.NumFields(); i++ {
+				a := e.fieldAddr(ref, t, i)
+				if whole(a.Ref) {
+					continue
+				}
+				if isAggregate(a.Typ) {
+					walk(a.Ref, a.Typ, depth+1)
+					continue
+				}
+				if covered(a.Ref) {
+					continue
+				}
+				restoreLeaf(a)
+			}
+		case *types.Array:
+			if covered(ref) {
+				return
+			}
+			if cls := elemClass(u.Elem()); cls != "" {
+				srt := e.sorts[cls]
+				if srt == nil {
+					return
+				}
+				old := e.get(pre, cls, srt)
+				cur := e.get(e.cur, cls, srt)
+				e.set(e.cur, cls, e.c.Store(cur, ref, e.c.Select(old, ref)))
+			}
+		default:
+			if covered(ref) {
+				return
+			}
+			a := e.cellAddr(ref, t)
+			if a.Prefix != "" {
+				restoreLeaf(a)
+			}
+		}
+	}
+	for _, o := range objs {
+		if whole(o.ref) {
+			continue
+		}
+		walk(o.ref, o.typ, 0)
+	}
 }
 
 // funcTypedImplementers: named function types of the module that implement the interface.
@@ -1866,4 +2286,14 @@ func (w *World) funcTypedImplementers(it types.Type) []types.Type {
 	}
 	sort.Slice(out, func(i, j int) bool { return out[i].String() < out[j].String() })
 	return out
+}
+
+// dynOption: "option dyn:<param>=<pkgpath.Type>" states the dynamic type of an interface parameter.
+func (ct *Contract) dynOption(w *World, param string) types.Type {
+	for o := range ct.Options {
+		if strings.HasPrefix(o, "dyn:"+param+"=") {
+			return w.lookupTypeByName(strings.TrimPrefix(o, "dyn:"+param+"="))
+		}
+	}
+	return nil
 }
